@@ -6,6 +6,8 @@ import (
 	"fmt"
 	"io"
 
+	"github.com/jeroenrinzema/psql-wire/codes"
+	psqlerr "github.com/jeroenrinzema/psql-wire/errors"
 	"github.com/jeroenrinzema/psql-wire/pkg/buffer"
 	"github.com/lib/pq/oid"
 )
@@ -69,7 +71,7 @@ func (w *vWorld) cbErr(dflt error) error {
 		return dflt
 	}
 	if !w.errChosen {
-		w.errKind, w.errChosen = vChoose(7), true
+		w.errKind, w.errChosen = vChoose(11), true
 	}
 	switch w.errKind {
 	case 1:
@@ -85,6 +87,15 @@ func (w *vWorld) cbErr(dflt error) error {
 		return buffer.NewMessageSizeExceeded(64, 65)
 	case 6:
 		return fmt.Errorf("wrapped: %w", context.Canceled)
+	case 7: // decorated errors: whatever severity or code the handler chose, a failure is a failure
+		vReach("callback-returns-a-warning")
+		return psqlerr.WithSeverity(dflt, psqlerr.LevelWarning)
+	case 8:
+		return psqlerr.WithSeverity(psqlerr.WithCode(dflt, codes.Syntax), psqlerr.LevelNotice)
+	case 9:
+		return psqlerr.WithSeverity(dflt, psqlerr.LevelFatal)
+	case 10:
+		return psqlerr.WithHint(psqlerr.WithSeverity(dflt, psqlerr.LevelLog), "hint")
 	}
 	return dflt
 }
